@@ -36,7 +36,66 @@ var c18ChunkLens = []int{0, 1, 63, 65, 32768, 65535, 65536}
 
 const c18ScriptChunks = 4
 
+// Pattern keys (index 100 + 8*length index + pattern): the content of a key is as free as its length. Zero bytes in
+// front, at the end, everywhere; bytes equal to the pad constants; a long key whose tail of zeros starts inside the block.
+var c18PatLens = []int{1, 20, 63, 64, 65, 66, 100, 128, 129, 300}
+
+const c18Patterns = 8
+
+func c18PatKey(i int) []byte {
+	n, pat := c18PatLens[(i-100)/c18Patterns], (i-100)%c18Patterns
+	k := make([]byte, n)
+	for j := range k {
+		k[j] = byte(j*11 + n + 3)
+		if k[j] == 0 {
+			k[j] = 1
+		}
+	}
+	switch pat {
+	case 0:
+		for j := range k {
+			k[j] = 0
+		}
+	case 1:
+		for j := range k {
+			k[j] = 0xFF
+		}
+	case 2:
+		k[n-1] = 0
+	case 3: // zeros from byte 60 on (or the last byte of a shorter key)
+		for j := 60; j < n; j++ {
+			k[j] = 0
+		}
+		k[n-1] = 0
+	case 4:
+		k[0] = 0
+	case 5:
+		for j := 0; j < n/2; j++ {
+			k[j] = 0
+		}
+	case 6:
+		for j := range k {
+			k[j] = 0x36
+		}
+	case 7:
+		for j := range k {
+			k[j] = 0x5C
+		}
+	}
+	return k
+}
+
+func c18KeyLen(i int) int {
+	if i >= 100 {
+		return c18PatLens[(i-100)/c18Patterns]
+	}
+	return c18KeyLens[i]
+}
+
 func c18Key(i int) []byte {
+	if i >= 100 {
+		return c18PatKey(i)
+	}
 	if b, ok := c18TwinOf[i]; ok && i < 10 {
 		k := c18Key(b)
 		switch i {
@@ -108,7 +167,7 @@ type hop struct {
 func (h hop) String() string {
 	switch h.Op {
 	case "acquire":
-		return fmt.Sprintf("acquire(s%d,key%dB)", h.Slot, c18KeyLens[h.Arg])
+		return fmt.Sprintf("acquire(s%d,key#%d:%dB)", h.Slot, h.Arg, c18KeyLen(h.Arg))
 	case "write":
 		return fmt.Sprintf("write(s%d,%dB)", h.Slot, c18ChunkLens[h.Arg])
 	}
@@ -415,6 +474,28 @@ func init() {
 							c.DistinctByConstruction++
 							c18Explore(c, c18Case{SHA256: sha256on, Ops: ops}, 0)
 						}
+					}
+				}
+			}
+			// (1c) key contents: every pattern key, fresh and after a base key / before a base key, then itself again
+			for _, sha256on := range []bool{false, true} {
+				for pk := 100; pk < 100+c18Patterns*len(c18PatLens); pk++ {
+					for _, other := range []int{-1, 4, 3} {
+						item++
+						if !c.Mine(item) {
+							continue
+						}
+						var ops []hop
+						if other >= 0 {
+							ops = append(ops, hop{Op: "acquire", Arg: other}, hop{Op: "write", Arg: 1}, hop{Op: "sum"}, hop{Op: "put"})
+						}
+						ops = append(ops, hop{Op: "acquire", Arg: pk}, hop{Op: "write", Arg: 2}, hop{Op: "sum"}, hop{Op: "reset"}, hop{Op: "write", Arg: 1}, hop{Op: "sum"}, hop{Op: "put"})
+						if other >= 0 {
+							ops = append(ops, hop{Op: "acquire", Arg: other}, hop{Op: "sum"}, hop{Op: "put"})
+						}
+						ops = append(ops, hop{Op: "acquire", Arg: pk}, hop{Op: "sum"}, hop{Op: "put"})
+						c.DistinctByConstruction++
+						c18Explore(c, c18Case{SHA256: sha256on, Ops: ops}, 0)
 					}
 				}
 			}
